@@ -7,11 +7,24 @@
    HCI_Event.event_classes, HCI_LE_Meta_Event.subevent_classes and every return
    parameters class, with its field list as a [list field] term. *)
 From Coq Require Import String ZArith List Bool.
-From BV Require Import Base.Bytes Proofs.Bytes Model.SpecCodec Proofs.SpecCodec Model.HciPacket Proofs.HciPacket Gen.C01Registry.
+From BV Require Import Base.Bytes Proofs.Bytes Model.SpecCodec Proofs.SpecCodec Model.HciPacket Proofs.HciPacket Model.HciSource Gen.C01Registry Gen.C01Source.
 Import ListNotations.
 Open Scope Z_scope.
 
 (* ---------------------------------------------------------------- per-run obligations *)
+(* The models match the source: the canonical text (AST without doc strings, comments,
+   logging, annotations, exception messages) of every function the models are a reading of -
+   parse_field and serialize_field arm by arm (struct formats, sizes, slices), the dict /
+   array loops, the enum type_spec lambdas, the Address / CodingFormat / length-prefixed
+   parsers, from_bytes / __bytes__ / parameters / __init__ of commands, events, extended
+   events, Command Complete, ACL, SCO, ISO (header formats, shifts, masks, length
+   comparisons), the two PHY-mask commands, the Android vendor factory and return parse,
+   and the numeric constants they dispatch on - regenerated from the sources on every run,
+   is the text the models were written against (Model/HciSource.v). *)
+Theorem C01_model_matches_source : pins_match source_pins expected_pins = true.
+Proof. vm_compute. reflexivity. Qed.
+Print Assumptions C01_model_matches_source.
+
 (* Every registered class has a well-formed field list (widths the codec has cases for,
    '*' / padded fields only in last position, array groups non-empty and self-delimiting),
    no (kind, code) is registered twice, every command's return class exists. *)
@@ -138,7 +151,7 @@ Qed.
 Print Assumptions C01_command_roundtrip.
 
 Theorem C01_command_bytes_roundtrip : forall b op known vs params,
-  bytes_ok b = true -> hd 0 b = HCI_COMMAND_PACKET ->
+  bytes_ok b = true -> hd 0 b = HCI_COMMAND_PACKET -> find_phy registry op = None ->
   parse_command registry b = Some (PCommand op known vs params) -> params <> [] ->
   packet_bytes registry (PCommand op known vs params) = Some b.
 Proof. exact (command_bytes_roundtrip registry). Qed.
@@ -150,7 +163,7 @@ Proof. exact (command_length_checked registry). Qed.
 Print Assumptions C01_command_length_checked.
 
 Theorem C01_unknown_opcode_preserved : forall op params,
-  find_class registry K_COMMAND op = None -> is_custom registry K_COMMAND op = false ->
+  find_class registry K_COMMAND op = None -> find_phy registry op = None ->
   u_range 2 op = true -> (length params < 256)%nat ->
   let b := HCI_COMMAND_PACKET :: le_encode 2 op ++ [Z.of_nat (length params)] ++ params in
   parse_packet registry b = Some (PCommand op false [] params) /\
@@ -269,7 +282,7 @@ Print Assumptions C01_cmd_complete_shape.
    class starts with a status), serialised inside a Command Complete event, they are parsed
    back by the command's return class into the same values. *)
 Theorem C01_cmd_complete_roundtrip : forall rc num op rn sf rvs rb,
-  existsb (Z.eqb op) (r_custom_return registry) = false ->
+  existsb (Z.eqb op) (r_lenient_return registry) = false ->
   assoc op (r_return registry) = Some (rn, sf) -> find_by_name registry K_RETURN rn = Some rc ->
   serialize_fields (c_fields rc) rvs = Some rb -> in_range (c_fields rc) (last rb 0) rvs = true ->
   (sf = true -> exists rest, rb = 0 :: rest) ->
@@ -289,6 +302,76 @@ Proof.
            (registry_class_wf registry rc C01_registry_wf Hin)).
 Qed.
 Print Assumptions C01_cmd_complete_roundtrip.
+
+(* ---------------------------------------------------------------- well-formed parameter blocks *)
+(* "Well-formed" for a registered class = the class's parser consumes the parameter block
+   exactly.  Then the cached bytes and the bytes recomputed from the fields coincide (also
+   for an empty block), so bytes -> packet -> bytes does not depend on the cache.  A block
+   the parser over-runs (C01_empty_block_witness: an empty block for a class made of a
+   fixed byte array is accepted with a short value) is not well-formed; the code then
+   re-serialises from the fields and the bytes differ - outside the property. *)
+Theorem C01_wellformed_block_recomputes : forall c, In c (r_classes registry) ->
+  forall prev ps vs, tight_fields (c_fields c) = true -> bytes_ok ps = true ->
+  parse_fields (c_fields c) prev ps = Some (vs, length ps) ->
+  serialize_fields (c_fields c) vs = Some ps /\ cached ps (serialize_fields (c_fields c) vs) = Some ps.
+Proof.
+  intros c Hin prev ps vs.
+  exact (wellformed_block_recomputes (c_fields c) prev ps vs (registry_class_wf registry c C01_registry_wf Hin)).
+Qed.
+Print Assumptions C01_wellformed_block_recomputes.
+
+(* ---------------------------------------------------------------- hand-written classes *)
+(* The two commands whose item count is the number of bits set in a PHY mask
+   (LE Set Extended Scan Parameters, LE Extended Create Connection): with as many per-PHY
+   items as the mask has bits and every value in range, the parameter block parses back to
+   the same values (whatever follows it), and the whole packet round-trips. *)
+Theorem C01_phy_roundtrip : forall pc, In pc (r_phy registry) ->
+  forall prev0 vs k, phy_count pc vs = Some k ->
+  in_range (phy_fields pc k) prev0 vs = true ->
+  exists b, serialize_phy pc vs = Some b /\
+            forall tail, parse_phy pc prev0 (b ++ tail) = Some vs.
+Proof.
+  intros pc Hin prev0 vs k.
+  apply phy_roundtrip.
+  pose proof C01_registry_wf as H. unfold wf_registry in H. apply andb_true_iff in H as [_ H].
+  rewrite forallb_forall in H. exact (H pc Hin).
+Qed.
+Print Assumptions C01_phy_roundtrip.
+
+Theorem C01_phy_command_roundtrip : forall pc vs k b,
+  find_class registry K_COMMAND (p_code pc) = None -> find_phy registry (p_code pc) = Some pc ->
+  phy_count pc vs = Some k ->
+  serialize_phy pc vs = Some b -> (length b < 256)%nat ->
+  in_range (phy_fields pc k) (last b 0) vs = true ->
+  exists pkt, packet_bytes registry (PCommand (p_code pc) true vs b) = Some pkt /\
+              parse_packet registry pkt = Some (PCommand (p_code pc) true vs b).
+Proof.
+  intros pc vs k b Hf Hphy.
+  apply (phy_command_roundtrip registry pc vs k b Hf Hphy).
+  pose proof C01_registry_wf as H. unfold wf_registry in H. apply andb_true_iff in H as [_ H].
+  rewrite forallb_forall in H. exact (H pc (proj2 (find_phy_code registry _ pc Hphy))).
+Qed.
+Print Assumptions C01_phy_command_roundtrip.
+
+(* Return parameters parsed field by field until the data runs out (Android LE Get Vendor
+   Capabilities): full-length parameters come back as the values that were serialised,
+   whatever the status; a short block gives a full-length value list. *)
+Theorem C01_lenient_return_roundtrip : forall rc op rn sf rvs,
+  existsb (Z.eqb op) (r_lenient_return registry) = true ->
+  assoc op (r_return registry) = Some (rn, sf) -> find_by_name registry K_RETURN rn = Some rc ->
+  tight_fields (c_fields rc) = true ->
+  forall prev, in_range (c_fields rc) prev rvs = true ->
+  exists rb, serialize_fields (c_fields rc) rvs = Some rb /\
+             forall tail, last (rb ++ tail) 0 = prev -> parse_return registry op (rb ++ tail) = Some (rn, rvs).
+Proof. exact (lenient_return_roundtrip registry). Qed.
+Print Assumptions C01_lenient_return_roundtrip.
+
+Theorem C01_lenient_return_total : forall rc op rn sf rpb,
+  existsb (Z.eqb op) (r_lenient_return registry) = true ->
+  assoc op (r_return registry) = Some (rn, sf) -> find_by_name registry K_RETURN rn = Some rc ->
+  exists rvs, parse_return registry op rpb = Some (rn, rvs) /\ length rvs = length (c_fields rc).
+Proof. exact (lenient_return_total registry). Qed.
+Print Assumptions C01_lenient_return_total.
 
 (* ---------------------------------------------------------------- ACL / SCO / ISO *)
 Theorem C01_acl_roundtrip : forall handle pb bc data,
@@ -379,9 +462,29 @@ Example C01_iso_witness :
   packet_bytes registry (PIso 1 2 6 None (Some (1, 2, 1)) [170; 187]) = Some b.
 Proof. vm_compute. repeat split. Qed.
 
+(* a PHY-mask command with mask 0b101 (two items) and the lenient return parse of a short block *)
+Example C01_phy_witness :
+  let b := [1; 65; 32; 13; 1; 0; 5; 1; 16; 0; 32; 0; 0; 48; 0; 64; 0] in
+  let vs := [VInt 1; VInt 0; VInt 5; VInt 1; VInt 16; VInt 32; VInt 0; VInt 48; VInt 64] in
+  parse_packet registry b = Some (PCommand 8257 true vs (skipn 4 b)) /\
+  packet_bytes registry (PCommand 8257 true vs (skipn 4 b)) = Some b /\
+  option_map (fun pc => (phy_count pc vs, in_range (phy_fields pc 2) 0 vs)) (find_phy registry 8257)
+    = Some (Some 2%nat, true) /\
+  option_map (fun r => length (snd r)) (parse_return registry 64851 [0; 9; 1]) = Some 16%nat /\
+  existsb (Z.eqb 64851) (r_lenient_return registry) = true.
+Proof. vm_compute. repeat split. Qed.
+
+(* an empty block for a class with a lenient field: accepted, declared size 8 > 0 bytes
+   available (not well-formed), and the fields re-serialise to 8 zero bytes *)
+Example C01_empty_block_witness :
+  parse_fields [F1 (FixedBytes 8)] 0 [] = Some ([VBytes []], 8%nat) /\
+  serialize_fields [F1 (FixedBytes 8)] [VBytes []] = Some [0; 0; 0; 0; 0; 0; 0; 0] /\
+  cached [] (serialize_fields [F1 (FixedBytes 8)] [VBytes []]) = Some [0; 0; 0; 0; 0; 0; 0; 0].
+Proof. vm_compute. repeat split. Qed.
+
 (* unknown opcode 0x3FFF and unknown event code 0x77 are not registered *)
 Example C01_unknown_witness :
-  find_class registry K_COMMAND 16383 = None /\ is_custom registry K_COMMAND 16383 = false /\
+  find_class registry K_COMMAND 16383 = None /\ find_phy registry 16383 = None /\
   find_class registry K_EVENT 119 = None /\
   (* LE sub-event 0x58 is not registered: the Android vendor sub-event of that number lives
      in the vendor registry only *)
